@@ -22,7 +22,7 @@ RULE = ('seeded worlds (2-8 segments, 1-4 channels, some with identical shapes s
         'of that handle - or, in a third of those worlds, the caller is interrupted there (KeyboardInterrupt) and goes on using the handle - (the read that meets it may fail, every later read must still be right); in 30% of worlds a second file - a sibling with the same objects, sizes and lengths but another distribution over the segments, or an unrelated file with the same paths - is open at the same time and read in between. distinct = distinct abstract traces [(action, generator '
         'kind, op kind)...] x world shape; non-trivial = at least one generator was advanced with another '
         'action interleaved between two of its yields')
-EXPECTED_PROBES = ['caller-scribbled-on-result', 'interrupt:op-raised', 'truncated-file', 'second-file-op', 'eio:op-raised', 'eio:generator-hit', 'scaled-channel', 'read-between-file-chunks', 'two-generators-same-channel', 'abandoned-then-new',
+EXPECTED_PROBES = ['chunk-first-looked-at-late', 'caller-scribbled-on-result', 'interrupt:op-raised', 'truncated-file', 'second-file-op', 'eio:op-raised', 'eio:generator-hit', 'scaled-channel', 'read-between-file-chunks', 'two-generators-same-channel', 'abandoned-then-new',
                    'index-cache-hit-after-other-read', 'generator-drained-at-end']
 MAX_LIVE = 8
 
@@ -94,6 +94,8 @@ def gen_actions(rng, w, nmax=60, w2=None):
         elif r < 0.93 and len(live) < MAX_LIVE:
             kind = rng.choice(['file', 'file', 'chan', 'chan', 'iter'])
             a = {'a': 'new', 'id': next_id, 'kind': kind}
+            if kind == 'file' and rng.random() < 0.3:
+                a['late'] = True      # the consumer looks at each chunk only after it has asked for the next one (look-behind, queues)
             if kind != 'file':
                 if not chans:
                     continue
@@ -278,7 +280,7 @@ def execute(case):
                         res.skipped_ops += 1
                         res.ev(step, 'ref-raises', type(exc).__name__)
                         continue
-                    gens[a['id']] = [make_gen(tf, w, a), a, 0, ref]
+                    gens[a['id']] = [make_gen(tf, w, a), a, 0, ref, []]
                     same = [g for i, g in gens.items() if i != a['id'] and g[1].get('ch') == a.get('ch') and g[1]['kind'] == a['kind']]
                     if same and a['kind'] != 'file':
                         res.probe('two-generators-same-channel')
@@ -420,14 +422,30 @@ def execute(case):
 
 def advance(g, w, step, res):
     """next() on a generator record; compares with the reference sequence. Sets position None when finished."""
-    it, a, pos, ref = g
+    it, a, pos, ref = g[:4]
+    pending = g[4] if len(g) > 4 else []
     if pos is None:
+        return None
+
+    def look_at_pending():
+        # first look at chunks that were delivered earlier
+        while pending:
+            ppos, pitem = pending.pop(0)
+            pgot = norm_item(a['kind'], pitem, w)
+            res.probe('chunk-first-looked-at-late')
+            if ppos < len(ref) and pgot != ref[ppos]:
+                return V('C05.iterator-item-differs', '%s generator item %d, first looked at after the next one had been requested, '
+                         'differs from the item it yields when run alone: got %s alone %s' % (
+                             a['kind'], ppos, _lazy._short(pgot), _lazy._short(ref[ppos])), kind=a['kind'], late=True)
         return None
     try:
         item = next(it)
     except StopIteration:
         g[2] = None
         res.ev(step, 'stop', a['kind'], pos)
+        v_ = look_at_pending()
+        if v_ is not None:
+            return v_
         if pos != len(ref):
             return V('C05.iterator-stops-early', '%s generator%s stopped after %d of %d items' % (
                 a['kind'], ' of ' + a['ch'] if 'ch' in a else '', pos, len(ref)), kind=a['kind'])
@@ -437,6 +455,18 @@ def advance(g, w, step, res):
         res.ev(step, 'raise', a['kind'], type(exc).__name__)
         return V('C05.iterator-raises', '%s generator raised %s: %s at item %d' % (a['kind'], type(exc).__name__, exc, pos),
                  kind=a['kind'], exc=type(exc).__name__)
+    if a.get('late'):
+        v_ = look_at_pending()
+        pending.append((pos, item))
+        g[2] = pos + 1
+        res.compared += 1
+        res.ev(step, 'next-unseen', a['kind'], pos)
+        if v_ is not None:
+            return v_
+        if pos >= len(ref):
+            return V('C05.iterator-extra-item', '%s generator yields item %d, alone it yields %d' % (a['kind'], pos, len(ref)),
+                     kind=a['kind'])
+        return None
     got = norm_item(a['kind'], item, w)
     held = getattr(res, 'held', None)
     if held is not None and len(held) < 200:
